@@ -61,24 +61,28 @@ def run(m: Model, r: Report, tier: str) -> None:
 
     # ---------------------------------------------------------------- R1 / R2
     jh = m.require_function(f"{NET}.join_host_port")
-    params = set(jh.params())
-    rets = [n for n in walk_no_nested(jh.node) if isinstance(n, ast.Return) and n.value is not None]
-    for i, rt in enumerate(rets):
-        r.check(params <= names_in(rt.value), "R1", f"{jh.qualname}#return[{i}]",
-                f"`{ast.unparse(rt.value)}` does not depend on {sorted(params - names_in(rt.value))}", loc=f"{jh.module.relpath}:{rt.lineno}")
-    conds = [n for n in walk_no_nested(jh.node) if isinstance(n, ast.If)]
-    okb = len(conds) == 1 and ast.unparse(conds[0].test) in ("':' in host",) and any("[{host}]" in ast.unparse(s).replace("'", "").replace('"', "") for s in conds[0].body)
-    r.check(okb, "R2", f"{jh.qualname}#bracket-rule",
-            f"brackets are used iff `{ast.unparse(conds[0].test) if conds else None}`: every host containing a colon (any IPv6 literal, e.g. ::1 or fe80::1) "
-            "needs brackets, otherwise host and port cannot be split again", loc=jh.loc)
-    hpar = jh.params()[0]
-    rebinds = [n.lineno for n in ast.walk(jh.node) if isinstance(n, (ast.Assign, ast.AugAssign, ast.AnnAssign, ast.NamedExpr))
-               and any(isinstance(t, ast.Name) and t.id == hpar for t in ast.walk(n.targets[0] if isinstance(n, ast.Assign) else n.target))]
-    host_uses = [fv for rt in rets for fv in ast.walk(rt.value) if isinstance(fv, ast.FormattedValue) and hpar in names_in(fv.value)]
-    r.check(not rebinds and host_uses and all(isinstance(fv.value, ast.Name) and fv.conversion == -1 and fv.format_spec is None for fv in host_uses), "R2",
-            f"{jh.qualname}#host-verbatim",
-            "the host text is altered before it is written (re-assigned, escaped or formatted): split_host_port / TargetURI.hostname do not undo it, so the host "
-            "no longer joins and splits losslessly (e.g. a scoped IPv6 literal fe80::1%eth0)", loc=jh.loc)
+    # join_host_port, evaluated over host kinds x ports: `host:port`, with the host in brackets exactly when it contains a colon, the host text unaltered
+    from sa import miniterp as _mtj
+    hpar, ppar_ = (jh.params() + ["host", "port"])[:2]
+    bad_j, unknown_j = [], None
+    try:
+        for h_ in ("localhost", "192.0.2.1", "::1", "fe80::1%eth0", "2001:db8::8a2e:370:7334", "A.example", ""):
+            for p_ in (0, 80, 13400, 65535):
+                try:
+                    ret_, env_ = _mtj.run_function(jh.node, {hpar: h_, ppar_: p_})
+                    got_ = _mtj.eval_expr(ret_.value, env_) if ret_ is not None and ret_.value is not None else None
+                except _mtj.Raised as ex_:
+                    got_ = "raises " + (ast.unparse(ex_.node.exc)[:40] if ex_.node.exc is not None else "")
+                want_ = f"[{h_}]:{p_}" if ":" in h_ else f"{h_}:{p_}"
+                if got_ != want_:
+                    bad_j.append(f"({h_!r}, {p_}) -> {got_!r}, expected {want_!r}")
+    except AnalysisError as ex_:
+        unknown_j = str(ex_)
+    for rid_, cn_, why_ in (("R1", "return[0]", "the result must be built from both parameters"),
+                            ("R2", "bracket-rule", "every host containing a colon (any IPv6 literal, e.g. ::1 or fe80::1) needs brackets, otherwise host and port cannot be split again"),
+                            ("R2", "host-verbatim", "the host text must be written unaltered: split_host_port / TargetURI.hostname do not undo an escape or re-format "
+                                                    "(e.g. a scoped IPv6 literal fe80::1%eth0)")):
+        r.check3(None if unknown_j else not bad_j, rid_, f"{jh.qualname}#{cn_}", f"{bad_j[:3]}: {why_}", loc=jh.loc, unknown_msg=f"join_host_port is outside the evaluated language: {unknown_j}")
     sh = m.require_function(f"{NET}.split_host_port")
     ssrc = ast.unparse(sh.node)
     r.check("urlparse(f'//{hostport}')" in ssrc and "url.hostname" in ssrc and "url.port" in ssrc and "ipaddress.ip_address(hostport)" in ssrc, "R2",
